@@ -3,6 +3,7 @@ package props
 import (
 	"encoding/hex"
 	"fmt"
+	"reflect"
 
 	"verifsim/engine"
 	"verifsim/world"
@@ -47,6 +48,35 @@ func decodeOp(sc *Scenario, r *engine.PRNG, cfg world.InstCfg, tn string, size i
 	return op, true
 }
 
+// relatedDecodeOp: like decodeOp but the value is a mutation of the value
+// with seed base (same keys, zero over non-zero, shorter / longer slices).
+func relatedDecodeOp(sc *Scenario, r *engine.PRNG, cfg world.InstCfg, tn string, base uint64, size int, vocab int) (Op, bool) {
+	op := Op{Kind: "unmarshal", Type: tn, VSeed: base, VSize: size, Vocab: vocab, Mut: r.Next() | 1}
+	d, ok := encodeFor(sc, cfg, &op)
+	if !ok {
+		return op, false
+	}
+	op.Data = d
+	return op, true
+}
+
+// concatOp: two valid records of the same struct type written one after the
+// other are a valid record too (protobuf merge semantics): fields occur twice.
+func concatOp(sc *Scenario, r *engine.PRNG, cfg world.InstCfg, tn string, size int, vocab int) (Op, bool) {
+	if typeInfo(tn).T.Kind() != reflect.Struct {
+		return Op{}, false
+	}
+	a, ok1 := decodeOp(sc, r, cfg, tn, size, vocab)
+	b, ok2 := relatedDecodeOp(sc, r, cfg, tn, a.VSeed, size, vocab)
+	if !ok1 || !ok2 {
+		return Op{}, false
+	}
+	a.Data += b.Data
+	a.VSeed = 0 // the bytes are no longer the encoding of one known value
+	a.Pat = "concat"
+	return a, true
+}
+
 // ---------------------------------------------------------------------------
 // C19
 
@@ -72,7 +102,22 @@ func GenC19(seed uint64, idx int) *Scenario {
 			}
 			switch k := r.Intn(10); {
 			case k < 6:
-				op, ok := decodeOp(sc, &r, cfg, tn, 2+r.Intn(14), 1)
+				var op Op
+				var ok bool
+				switch r.Intn(6) {
+				case 0:
+					op, ok = concatOp(sc, &r, cfg, tn, 2+r.Intn(10), 1)
+				case 1, 2:
+					// re-used target (and its twin): related values so that keys and fields overlap
+					op, ok = relatedDecodeOp(sc, &r, cfg, tn, slotSeed(seed, idx, t, tn), 2+r.Intn(14), 1)
+					op.Target = 1
+					if r.Intn(4) == 0 {
+						op.Mut = 0
+						op.Data, ok = encodeFor(sc, cfg, &op)
+					}
+				default:
+					op, ok = decodeOp(sc, &r, cfg, tn, 2+r.Intn(14), 1)
+				}
 				if !ok {
 					nops--
 					continue
@@ -158,7 +203,22 @@ func GenC11(seed uint64, idx int) *Scenario {
 			}
 			switch k := r.Intn(12); {
 			case k < 5:
-				op, ok := decodeOp(sc, &r, cfg, tn, 2+r.Intn(20), vocab)
+				var op Op
+				var ok bool
+				switch r.Intn(6) {
+				case 0:
+					op, ok = concatOp(sc, &r, cfg, tn, 2+r.Intn(12), vocab)
+				case 1, 2:
+					// re-used target: related values so that map keys and fields overlap
+					op, ok = relatedDecodeOp(sc, &r, cfg, tn, slotSeed(seed, idx, t, tn), 2+r.Intn(20), vocab)
+					op.Target = 1 + slotFor(tn, "")
+					if r.Intn(4) == 0 {
+						op.Mut = 0
+						op.Data, ok = encodeFor(sc, cfg, &op)
+					}
+				default:
+					op, ok = decodeOp(sc, &r, cfg, tn, 2+r.Intn(20), vocab)
+				}
 				if !ok {
 					nops--
 					continue
@@ -200,7 +260,9 @@ var c10Types = []string{"MTarget", "MTarget", "MTarget", "Wide", "Wide", "Maps",
 func GenC10(seed uint64, idx int) *Scenario {
 	r := engine.PRNG{S: engine.Mix(seed, 0xC10, uint64(idx))}
 	cfg := pickCfg(&r)
-	nt := 1 + r.Intn(3)
+	// One caller: C10 is about histories. What other goroutines leave behind in
+	// the pool is modelled by the pool seam; interleaving is C07's business.
+	nt := 1
 	sc := &Scenario{Prop: "C10", Seed: seed, Index: idx, Insts: []world.InstCfg{cfg}, PoolSeam: true, PoolBias: 70, SchedSeed: r.Next()}
 	sc.Vocabs = [][]string{makeVocab(&r)}
 	mainType := c10Types[r.Intn(len(c10Types))]
@@ -208,7 +270,7 @@ func GenC10(seed uint64, idx int) *Scenario {
 		mainType = c10Types[r.Intn(len(c10Types))]
 	}
 	for t := 0; t < nt; t++ {
-		nops := 4 + r.Intn(5)
+		nops := 5 + r.Intn(10)
 		var ops []Op
 		tries := 0
 		for len(ops) < nops && tries < 50 {
@@ -225,7 +287,21 @@ func GenC10(seed uint64, idx int) *Scenario {
 				vocab = 1
 			}
 			sizes := []int{1, 2, 4, 8, 16, 30}
-			op, ok := decodeOp(sc, &r, cfg, tn, sizes[r.Intn(len(sizes))], vocab)
+			var op Op
+			var ok bool
+			switch r.Intn(8) {
+			case 0:
+				op, ok = concatOp(sc, &r, cfg, tn, sizes[r.Intn(4)], vocab)
+			case 1, 2, 3, 4:
+				// a value related to the others decoded into this slot: same keys, zero over non-zero, shorter / longer slices
+				op, ok = relatedDecodeOp(sc, &r, cfg, tn, slotSeed(seed, idx, t, tn), sizes[2+r.Intn(4)], vocab)
+				if r.Intn(4) == 0 {
+					op.Mut = 0
+					op.Data, ok = encodeFor(sc, cfg, &op)
+				}
+			default:
+				op, ok = decodeOp(sc, &r, cfg, tn, sizes[r.Intn(len(sizes))], vocab)
+			}
 			if !ok {
 				continue
 			}
@@ -261,6 +337,15 @@ func GenC10(seed uint64, idx int) *Scenario {
 	sc.Sites = pickSites(&r, []string{"op.begin", "map.key", "map.entry"}, append(append([]string(nil), allDecodeSites...), internSites...), []int{0, 30, 60, 100}[r.Intn(4)])
 	sc.Policy = pickPolicy(&r, nt)
 	return sc
+}
+
+// slotSeed is the base value seed shared by the related values of one slot.
+func slotSeed(seed uint64, idx, task int, tn string) uint64 {
+	h := uint64(0)
+	for i := 0; i < len(tn); i++ {
+		h = h*131 + uint64(tn[i])
+	}
+	return engine.Mix(seed, uint64(idx), uint64(task), h) | 1
 }
 
 func slotFor(tn, main string) int {
